@@ -27,6 +27,15 @@ class MeanFunction(ABC):
     def mean_and_gradients(self, theta: ndarray):
         pass
 
+    def spatial_gradient(self, q, theta: ndarray):
+        raise NotImplementedError(
+            f"""\n
+            \r[ {self.__class__.__name__} error ]
+            \r>> 'spatial_gradient' must be implemented by a mean function in
+            \r>> order to predict gradients of the Gaussian-process regression.
+            """
+        )
+
 
 class ConstantMean(MeanFunction):
     def __init__(self, hyperpar_bounds=None):
@@ -43,6 +52,9 @@ class ConstantMean(MeanFunction):
 
     def __call__(self, q, theta: ndarray):
         return theta[0]
+
+    def spatial_gradient(self, q, theta: ndarray):
+        return zeros(q.size)
 
     def build_mean(self, theta: ndarray):
         return zeros(self.n_data) + theta[0]
@@ -73,6 +85,9 @@ class LinearMean(MeanFunction):
 
     def __call__(self, q, theta: ndarray):
         return theta[0] + dot(q - self.x_mean, theta[1:]).squeeze()
+
+    def spatial_gradient(self, q, theta: ndarray):
+        return theta[1:]
 
     def build_mean(self, theta: ndarray):
         return theta[0] + dot(self.dx, theta[1:])
@@ -113,6 +128,9 @@ class QuadraticMean(MeanFunction):
         lin_term = dot(d, theta[self.lin_slc]).squeeze()
         quad_term = dot(d**2, theta[self.quad_slc]).squeeze()
         return theta[0] + lin_term + quad_term
+
+    def spatial_gradient(self, q, theta: ndarray):
+        return theta[self.lin_slc] + 2 * (q - self.x_mean) * theta[self.quad_slc]
 
     def build_mean(self, theta: ndarray):
         lin_term = dot(self.dx, theta[self.lin_slc])
